@@ -105,7 +105,11 @@ def gen_client(rng, j, libs):
             r["readers"] = rng.choice(["*", lib["readers"][:1], lib["readers"]])
         reqs.append(r)
     return {"requires": reqs, "own_macro": rng.random() < 0.3, "ver": 1, "in_fn": rng.random() < 0.5,
-            "local_require": rng.random() < 0.25}
+            "local_require": rng.random() < 0.25,
+            # the module's first form imports hy itself under some name (the bytecode still has to bind `hy` for the
+            # run-time require calls)
+            "hy_first": rng.choice([None, None, None, "(import hy :as hylang)", "(import hy.models :as HM)", "(import hy)",
+                                    "(import hy.models)", "(import hy.models [Symbol])"])}
 
 
 def generate(rng, tier):
@@ -436,6 +440,8 @@ def client_readers(tag, desc, cl):
 
 def client_text(tag, desc, j, cl):
     out = []
+    if cl.get("hy_first"):
+        out.append(cl["hy_first"])
     for r in cl["requires"]:
         lname = f"{tag}lib{r['lib']}"
         if r["shape"] == "bare":
@@ -954,6 +960,8 @@ def shrink(desc):
             if reqs[r].get("readers"):
                 nr = {k: v for k, v in reqs[r].items() if k != "readers"}
                 yield dict(desc, clients=desc["clients"][:j] + [dict(cl, requires=reqs[:r] + [nr] + reqs[r + 1:])] + desc["clients"][j + 1:])
+        if cl.get("hy_first"):
+            yield dict(desc, clients=desc["clients"][:j] + [dict(cl, hy_first=None)] + desc["clients"][j + 1:])
         for key in ("own_macro", "local_require", "in_fn"):
             if cl[key]:
                 yield dict(desc, clients=desc["clients"][:j] + [dict(cl, **{key: False})] + desc["clients"][j + 1:])
